@@ -217,6 +217,20 @@ static void sec_rle_gen(int scale) {
 }
 
 /* ---- raw bit packing ---------------------------------------------------------------- */
+/* the bit writer / bit reader pair of core/bitpack.c: any sequence of write_bit / write_bits(1..32) / write_bits64(1..64) must
+ * read back as written, and the writer must report ceil(bits/8) bytes */
+static void sec_bitstream(int scale) { int cases = scale >= 2 ? 60000 : 12000;
+    for (int ci = 0; ci < cases; ci++) { int nops = 1 + (int)vrng_below(&R, 60); int uniform = (int)vrng_below(&R, 3) == 0; int uw = 1 + (int)vrng_below(&R, 64); int kinds[64]; int nb[64]; uint64_t vals[64]; size_t total = 0;
+        for (int i = 0; i < nops && i < 60; i++) { int kind = uniform ? (uw <= 32 ? 1 : 2) : (int)vrng_below(&R, 3); int n = uniform ? uw : kind == 0 ? 1 : kind == 1 ? 1 + (int)vrng_below(&R, 32) : 1 + (int)vrng_below(&R, 64); uint64_t v = vrng_u64(&R); if (vrng_chance(&R, 1, 4)) v = ~0ULL; if (n < 64) v &= (1ULL << n) - 1; kinds[i] = kind; nb[i] = n; vals[i] = v; total += (size_t)n; }
+        if (nops > 60) nops = 60; size_t bytes = (total + 7) / 8; uint8_t* buf = v_exact(bytes + 8); memset(buf, 0, bytes + 8); carquet_bit_writer_t w; carquet_bit_writer_init(&w, buf, bytes + 8);
+        for (int i = 0; i < nops; i++) { if (kinds[i] == 0) carquet_bit_writer_write_bit(&w, (int)vals[i]); else if (kinds[i] == 1) carquet_bit_writer_write_bits(&w, (uint32_t)vals[i], nb[i]); else carquet_bit_writer_write_bits64(&w, vals[i], nb[i]); }
+        carquet_bit_writer_flush(&w); size_t wr = carquet_bit_writer_bytes_written(&w); v_case(v_hash(vals, (size_t)nops * 8, v_hash(nb, (size_t)nops * sizeof(int), 3))); v_count("bitstream_cases");
+        if (wr != bytes) { v_viol("bitstream:bytes-written", "ops=%d bits=%zu expected %zu bytes, writer reports %zu", nops, total, bytes, wr); free(buf); continue; }
+        uint8_t* exact = v_exact_copy(buf, bytes); carquet_bit_reader_t r; carquet_bit_reader_init(&r, exact, bytes); int bad = -1; uint64_t got = 0;
+        for (int i = 0; i < nops && bad < 0; i++) { if (kinds[i] == 0) got = (uint64_t)carquet_bit_reader_read_bit(&r); else if (kinds[i] == 1) got = carquet_bit_reader_read_bits(&r, nb[i]); else got = carquet_bit_reader_read_bits64(&r, nb[i]); if (got != vals[i]) bad = i; }
+        if (bad >= 0) { char key[96]; snprintf(key, sizeof key, "bitstream:roundtrip:%s", uniform ? "uniform-width" : "mixed-widths"); char seq[300]; size_t sn = 0; seq[0] = 0; for (int i = 0; i <= bad && sn + 8 < sizeof seq; i++) sn += (size_t)snprintf(seq + sn, sizeof seq - sn, "%d ", nb[i]); v_viol(key, "op %d of %d (width %d): wrote %llx read %llx; widths so far: %s", bad, nops, nb[bad], (unsigned long long)vals[bad], (unsigned long long)got, seq); }
+        free(exact); free(buf); } }
+
 static void sec_bitpack(int scale) {
     for (int w = 0; w <= 32; w++) { uint32_t top = w >= 32 ? 0xFFFFFFFFu : ((1u << w) - 1);
         for (size_t n = 0; n <= (scale >= 2 ? 300 : 100); n++) for (int law = 0; law < 3; law++) {
@@ -465,6 +479,7 @@ int main(int argc, char** argv) {
     else if (!strcmp(sec, "rle_runs")) sec_rle_runs(scale);
     else if (!strcmp(sec, "rle_gen")) sec_rle_gen(scale);
     else if (!strcmp(sec, "bitpack")) sec_bitpack(scale);
+    else if (!strcmp(sec, "bitstream")) sec_bitstream(scale);
     else if (!strcmp(sec, "plain")) sec_plain(scale);
     else if (!strcmp(sec, "delta")) sec_delta(scale);
     else if (!strcmp(sec, "dstr")) sec_dstr(scale);
